@@ -131,6 +131,8 @@ type ScriptSub struct {
 	IgnoreCtx bool
 	// Buffer is the capacity of the subscription channels.
 	Buffer int
+	// CloseErr, when set, decides what the n-th Close call (1-based) returns.
+	CloseErr func(call int) error
 }
 
 // NewScriptSub creates a scripted subscriber.
@@ -202,6 +204,9 @@ func (s *ScriptSub) Close() error {
 	s.mu.Unlock()
 	for _, sub := range subs {
 		sub.close()
+	}
+	if s.CloseErr != nil {
+		return s.CloseErr(call)
 	}
 	return nil
 }
